@@ -426,8 +426,15 @@ def worker_f(payload):
         # (plain classes, Literals and conditions only: unions / intersections are outside, finding D3)
         alltys6 = [p["ty"] for d in sc["defs"] for p in d["params"]]
         regs6 = [op[1] for op in sc["ops"] if op[0] == "reg"]
-        sigs6 = [json.dumps([[p["kind"] == "ko", p["ty"], p["req"]] for p in sc["defs"][q]["params"]]) for q in regs6]
-        if i % 2 == 0 and len(regs6) >= 2 and len(set(regs6)) == len(regs6) and len(set(sigs6)) == len(sigs6) and not any(k in kinds_of(t) for t in alltys6 for k in ("union", "inter")):
+        # distinct signatures by the library's own equality of types (Literal[1] and Literal[True] are EQUAL types:
+        # one signature, recency decides between them — outside C06)
+        def _sig6(q):
+            d6 = sc["defs"][q]
+            return [(p["kind"] == "ko", p["req"], fw.glb[f"T_{d6['id']}_{p['name']}"]) for p in d6["params"]]
+
+        sl6 = [_sig6(q) for q in regs6]
+        distinct6 = all(sl6[a] != sl6[b] for a in range(len(sl6)) for b in range(a))
+        if i % 2 == 0 and len(regs6) >= 2 and len(set(regs6)) == len(regs6) and distinct6 and not any(k in kinds_of(t) for t in alltys6 for k in ("union", "inter")):
             perm = list(regs6)
             rng.shuffle(perm)
             if perm != regs6:
@@ -448,6 +455,17 @@ def worker_f(payload):
                     if im2 is not None:
                         o6 = orc("C06")
                         for q, (b1, b2) in enumerate(zip(im[first_call:], im2[len(perm):])):
+                            # only calls in the territory where the documented rule is decisive (all applicable methods
+                            # comparable, no failing value-dependent candidate): where the known findings D1 / D23
+                            # bend the answer, the order in which they bend it is their business
+                            op6 = sc["ops"][first_call + q]
+                            want6, _n6 = py_spec(fw, ew, sc, regs6, op6[1], op6[2])
+                            first6 = b1["raw"][0][0] if b1.get("raw") else None
+                            got6 = ["ran", first6] if first6 is not None else [b1["o"][0]]
+                            # (in the literal-only scenarios — Literals over int next to plain int / object methods —
+                            # neither finding can arise: every call counts there)
+                            if steer != "literals" and (not py_spec.comparable or py_spec.failing_candidates):
+                                continue
                             o6["n"] += 1
                             o6["nontrivial"] += 1
                             k1 = (b1["o"][0], (b1.get("t") or [[None]])[0][0] if b1["o"][0] == "ran" else None)
